@@ -216,9 +216,11 @@ func (f *STFS) Initialize(rootProposal string, rootPerm os.FileMode) (root strin
 
 	existingRoot, err := f.metadata.Metadata.GetRootPath(context.Background())
 	if err == config.ErrNoRootDirectory {
-		mkdirRoot := func() (string, error) {
-			if err := f.readOps.GetBackend().CloseReader(); err != nil {
-				return "", err
+		mkdirRoot := func(closeReader bool) (string, error) {
+			if closeReader {
+				if err := f.readOps.GetBackend().CloseReader(); err != nil {
+					return "", err
+				}
 			}
 
 			if f.readOnly {
@@ -235,7 +237,7 @@ func (f *STFS) Initialize(rootProposal string, rootPerm os.FileMode) (root strin
 
 		reader, err := f.readOps.GetBackend().GetReader()
 		if err != nil {
-			return mkdirRoot()
+			return mkdirRoot(false) // The drive could not be opened, so there is no reader to close
 		}
 
 		if err := recovery.Index(
@@ -270,7 +272,7 @@ func (f *STFS) Initialize(rootProposal string, rootPerm os.FileMode) (root strin
 				return root, nil
 			}
 
-			return mkdirRoot()
+			return mkdirRoot(true)
 		}
 
 		if err := f.readOps.GetBackend().CloseReader(); err != nil {
